@@ -262,6 +262,45 @@ def _self_mutating_methods(ix, mod, cls, cg=None, mut=None):
     return out
 
 
+def r14_api_arguments_untouched(ctx):
+    """'does not modify the objects passed in' - for every argument of the public calls, not only the settings and the data: a dictionary
+    of time points, of individual parameters ... handed to `estimate` & co. is only read.  Decided on paths: a store through a parameter is
+    reported when some path reaches it on which the parameter was not re-bound to an object of the function's own."""
+    ctx.rule("C13.R14", "the public methods of the model API store nothing through their arguments (on any path where the argument is still the caller's object)", 1)
+    MUT = {"update", "pop", "popitem", "clear", "setdefault", "append", "extend", "insert", "remove", "sort", "reverse", "__setitem__", "__delitem__", "add", "discard"}
+    n_fun = 0
+    for f in ctx.ix.iter_funcs():
+        if f.mod != "leaspy.models.base" or not f.qual.startswith("BaseModel.") or f.name.startswith("_"):
+            continue
+        n_fun += 1
+        ctx.analysed(f)
+        a = f.node.args
+        params = [p_.arg for p_ in a.posonlyargs + a.args + a.kwonlyargs if p_.arg not in ("self", "cls")]
+        if not params:
+            continue
+        cfg = None
+        for st in statements(f.node):
+            hits = []
+            for t in store_targets(st):
+                if isinstance(t, (ast.Subscript, ast.Attribute)) and root_name(t) in params:
+                    hits.append((root_name(t), st))
+            for c in header_walk(st):
+                if isinstance(c, ast.Call) and isinstance(c.func, ast.Attribute) and c.func.attr in MUT and root_name(c.func.value) in params:
+                    hits.append((root_name(c.func.value), st))
+                if isinstance(c, ast.Call) and any(k.arg == "inplace" and U(k.value) == "True" for k in c.keywords) and isinstance(c.func, ast.Attribute) and root_name(c.func.value) in params:
+                    hits.append((root_name(c.func.value), st))
+            for pname, st_ in hits:
+                cfg = cfg or CFG(f.node)
+                sn = cfg.node_of(st_)
+                rebinds = [n for n, s2 in cfg.stmt.items() if s2 is not None and n != sn and any(isinstance(t, ast.Name) and t.id == pname for t in store_targets(s2))
+                           and not (isinstance(s2, (ast.For, ast.AsyncFor)))]
+                path = cfg.path_avoiding(cfg.entry, rebinds, end=sn) if sn is not None else [0]
+                if path is not None:
+                    ctx.violation("C13.R14", f, st_, f"`{U(st_)[:70]}` stores through the argument `{pname}`" + (" on the paths where it was not re-bound first" if rebinds else "") +
+                                  f": the object the caller passed to `{f.name}` is modified by the call", construct=f"store through {pname} in {f.name}")
+    ctx.ok("C13.R14", ("leaspy.models.base", "BaseModel"), None, f"{n_fun} public methods of BaseModel: no store through an argument that is still the caller's object", construct="public API arguments only read")
+
+
 INPUT_TYPES = {"AlgorithmSettings": "settings", "Dataset": "dataset", "Data": "data", "OutputsSettings": "output settings", "DataFrame": "table"}
 
 
@@ -442,6 +481,7 @@ def rules(ctx):
     r3_mcmc_personalize(ctx, cg, sw)
     r3b_after_cleaning(ctx, sw)
     r4_inputs(ctx, cg)
+    r14_api_arguments_untouched(ctx)
     r5_shared_defaults(ctx)
     r6_no_inplace_on_model_values(ctx)
     r7_argument_views(ctx)
